@@ -150,3 +150,29 @@ Proof.
   unfold counted. induction w as [|a w IH]; intro H; simpl; [reflexivity|]. inversion H as [|? ? Ha Hw]; subst.
   rewrite (proj2 (memb_In a cs) Ha). simpl. f_equal. apply IH. exact Hw.
 Qed.
+
+Lemma flat_map_length_sum {X Y} (f : X -> list Y) l :
+  length (flat_map f l) = list_sum (map (fun x => length (f x)) l).
+Proof. induction l as [|a l IH]; simpl; [reflexivity|]. rewrite app_length, IH. reflexivity. Qed.
+
+Lemma NoDup_app_disjoint {X} (a b : list X) :
+  NoDup a -> NoDup b -> (forall x, In x a -> ~ In x b) -> NoDup (a ++ b).
+Proof.
+  induction a as [|x a IH]; intros Ha Hb H; simpl; [exact Hb|]. inversion Ha as [|? ? Hx Ha']; subst. constructor.
+  - intro Hin. apply in_app_or in Hin. destruct Hin as [Hin|Hin]; [exact (Hx Hin)|exact (H x (or_introl eq_refl) Hin)].
+  - apply IH; [exact Ha'|exact Hb|]. intros y Hy. apply H. right. exact Hy.
+Qed.
+
+Lemma NoDup_flat_map_disjoint {X Y} (f : X -> list Y) l :
+  NoDup l -> (forall x, In x l -> NoDup (f x)) ->
+  (forall x y z, In x l -> In y l -> In z (f x) -> In z (f y) -> x = y) -> NoDup (flat_map f l).
+Proof.
+  induction l as [|a l IH]; intros Hl Hf Hd; simpl; [constructor|]. inversion Hl as [|? ? Ha Hl']; subst.
+  apply NoDup_app_disjoint.
+  - apply Hf. left. reflexivity.
+  - apply IH; [exact Hl'| |].
+    + intros x Hx. apply Hf. right. exact Hx.
+    + intros x y z Hx Hy. apply Hd; right; assumption.
+  - intros z Hz Hin. apply in_flat_map in Hin. destruct Hin as [y [Hy Hzy]].
+    assert (a = y) by (apply (Hd a y z); [left; reflexivity|right; exact Hy|exact Hz|exact Hzy]). subst y. exact (Ha Hy).
+Qed.
